@@ -96,9 +96,14 @@ struct Encoding<
   }
 
   static constexpr std::size_t Size(const Type& value) {
+    // A size member above the capacity is rejected by WritePayload(); do not
+    // walk past the end of the array while estimating the size.
+    const SizeType size = static_cast<SizeType>(value.size());
+    const SizeType count = (!IsUnbounded && size > Length) ? 0 : size;
+
     std::size_t element_size_sum = 0;
-    for (const ValueType& element : value)
-      element_size_sum += Encoding<ValueType>::Size(element);
+    for (SizeType i = 0; i < count; i++)
+      element_size_sum += Encoding<ValueType>::Size(value[i]);
 
     return BaseEncodingSize(Prefix(value)) +
            Encoding<SizeType>::Size(value.size()) + element_size_sum;
